@@ -1231,7 +1231,6 @@ func (ex *Exec) sliceFromElemPtr(p Ptr, n int) Slice {
 	return Slice{Base: base, Off: last.I, Len: n, Cap: len(arr.E) - last.I}
 }
 
-
 // decodeRuneSym decodes one UTF-8 sequence whose lead byte is symbolic and
 // known to be >= 0x80, exactly as utf8.DecodeRune does (RuneError, width 1
 // for anything malformed), forking on the lead-byte class and on validity.
